@@ -260,7 +260,14 @@ def impl_case(case, workdir):
         obj = build_obj(case["single"]) if "single" in case else build_ws(case["ws"])
         raised = None
         try:
-            dnp.save(obj, given, overwrite=bool(case.get("overwrite")))
+            # the ways a caller states the overwrite option: keyword, positional (after save_type), or — for "no" — not at all
+            ow, form = bool(case.get("overwrite")), case.get("owform", "kw")
+            if form == "omitted" and not ow:
+                dnp.save(obj, given)
+            elif form == "positional":
+                dnp.save(obj, given, None, ow)
+            else:
+                dnp.save(obj, given, overwrite=ow)
         except BaseException as e:  # noqa: BLE001  (save raises Warning, a BaseException subclass of Exception)
             raised = type(e).__name__
         state = {"raised": raised is not None, "exists": os.path.exists(path), "tree": None, "loaded": None,
